@@ -200,6 +200,22 @@ def compact (db : DB) (ds : Nat) : DB :=
     | [] => db
     | first :: rest => compactFrom ds db first rest) db
 
+/-- a compaction that works from the snapshot `db0` while a writer turns `db0` into `dbw` before the
+compactor's flushes land: the keys the compactor removes are those it computed on its snapshot; a latest
+pointer is re-pointed only when it still points where it did in the snapshot (`guarded`; without the guard the
+flush overwrites the pointer the writer has just set). -/
+def compactRaced (guarded : Bool) (db0 dbw : DB) (ds : Nat) : DB :=
+  let c := compact db0 ds
+  let goneV := (db0.versions.filter fun v => !(c.versions.any (·.1 == v.1))).map (·.1)
+  let goneC := db0.changes.filter fun x => !c.changes.contains x
+  let goneR := db0.refs.filter fun r => !c.refs.contains r
+  let rew := c.latest.filter fun p => db0.latest.lookup p.1 != some p.2
+  { dbw with versions := dbw.versions.filter (fun v => !goneV.contains v.1),
+             changes := dbw.changes.filter (fun x => !goneC.contains x),
+             refs := dbw.refs.filter (fun r => !goneR.contains r),
+             latest := rew.foldl (fun l p =>
+               if !guarded || l.lookup p.1 == db0.latest.lookup p.1 then setAssoc p.1 p.2 l else l) dbw.latest }
+
 /-- a legacy duplicate: a version written without the write-time equality check. -/
 def injectVersion (db : DB) (ds t : Nat) (e : Ent) : DB :=
   appendVersion db ds t 0 e (db.stored ds e.rid) false
